@@ -455,6 +455,48 @@ class SimPool:
     def apply(self, func, args=(), kwds={}):
         return self.map(_Apply(func, kwds), [args])[0]
 
+    def starmap(self, func, iterable, chunksize=None):
+        return self.map(_StarApply(func), iterable, chunksize)
+
+    # ---- asynchronous forms: the call is queued; its units run at drawn moments (at submission,
+    # when the parent waits on the result, at a later pool interaction, or in the background drain)
+    def _submit_async(self, func, iterable, chunksize, single, callback, error_callback):
+        self._check()
+        ctx = self.ctx
+        if not hasattr(iterable, "__len__"):
+            iterable = list(iterable)
+        n = len(iterable)
+        if chunksize is None:
+            chunksize, extra = divmod(n, self.W * 4)
+            if extra:
+                chunksize += 1
+        chunksize = max(chunksize, 1)
+        c = self._new_call("map", func, iterable, chunksize)
+        c.it = iter(iterable)
+        c.pull(None)
+        c.setup_pref()
+        c.is_async = True
+        ctx.ev("map_async" if not single else "apply_async", c.tag, c.site, "n", n)
+        ctx.probe("async_calls")
+        res = _AsyncResult(self, c, n, single, callback, error_callback)
+        st = c.style
+        if st in (1, 2) or (c.pref is not None and self.eager):
+            res._complete()
+        elif st == 3:
+            for _ in range(self.src.draw(f"{c.tag}.run0", 0, 2)):
+                if not c.step():
+                    break
+        return res
+
+    def map_async(self, func, iterable, chunksize=None, callback=None, error_callback=None):
+        return self._submit_async(func, iterable, chunksize, False, callback, error_callback)
+
+    def starmap_async(self, func, iterable, chunksize=None, callback=None, error_callback=None):
+        return self._submit_async(_StarApply(func), iterable, chunksize, False, callback, error_callback)
+
+    def apply_async(self, func, args=(), kwds={}, callback=None, error_callback=None):
+        return self._submit_async(_Apply(func, kwds), [args], 1, True, callback, error_callback)
+
     def close(self):
         self.closed = True
 
@@ -503,6 +545,9 @@ class SimPool:
 
     def _call_finished(self, c):
         ctx = self.ctx
+        cb = getattr(c, "on_finish", None)
+        if cb is not None:
+            cb()
         n = sum(len(u) if not isinstance(u, _Failure) else 1 for u in c.units)
         if c.kind != "map":
             self._record_sig(c, n)
@@ -545,6 +590,79 @@ class _Apply:
 
     def __call__(self, args):
         return self.f(*args, **self.kw)
+
+
+class _StarApply:
+    def __init__(self, f):
+        self.f = f
+
+    def __call__(self, args):
+        return self.f(*args)
+
+
+class _AsyncResult:
+    """multiprocessing.pool.AsyncResult / MapResult: errors are only seen by a caller that get()s."""
+
+    def __init__(self, pool, call, n, single, callback, error_callback):
+        self.pool = pool
+        self.call = call
+        self.n = n
+        self.single = single
+        self.callback = callback
+        self.error_callback = error_callback
+        self._called_back = False
+        call.on_finish = self._fire_callbacks
+
+    def _outcome(self):
+        c = self.call
+        for u in c.completion:
+            r = c.done[u]
+            if isinstance(r, _Failure):
+                return False, r.exc
+            for ok, v in r:
+                if not ok:
+                    return False, v
+        out = []
+        for u in range(len(c.units)):
+            out.extend(v for ok, v in c.done[u])
+        return True, (out[0] if self.single else out)
+
+    def _fire_callbacks(self):
+        if self._called_back:
+            return
+        self._called_back = True
+        ok, v = self._outcome()
+        if ok and self.callback is not None:
+            self.callback(v)
+        if not ok and self.error_callback is not None:
+            self.error_callback(v)
+
+    def _complete(self):
+        c = self.call
+        if self.pool.terminated and not c.finished:
+            raise HarnessError("waiting on an async result of a terminated pool (would hang)")
+        if not c.finished:
+            c.run_all()
+        self._fire_callbacks()
+
+    def ready(self):
+        return self.call.finished
+
+    def successful(self):
+        if not self.call.finished:
+            raise ValueError("result is not ready")
+        return self._outcome()[0]
+
+    def wait(self, timeout=None):
+        self._complete()
+
+    def get(self, timeout=None):
+        self._complete()
+        ok, v = self._outcome()
+        if ok:
+            return v
+        self.pool.ctx.probe("async_error_collected")
+        raise v
 
 
 def _run_payload(pool, payload):
